@@ -29,6 +29,7 @@ def run(ck, an, tier):
     ledger.valuation_formulas(ck, an, {"nlv"})
     sides(ck, an)
     ledger.ledger_ownership(ck, an, "S7")
+    ledger.ledger_containers(ck, an, "S7")
     s8(ck, an)
 
 
